@@ -5,7 +5,6 @@ add("C02", "other",
     "with the doubling for real banks, the log floor and the energy coefficient at index 0, from loop invariants on the real source. "
     "Numeric agreement with an independent full-DFT oracle is checked by a bounded stand-in. Mixed proof + bounded, hence 'other'.",
     "contract-based deductive verification (sidecar contracts -> VCs from the real AST -> z3) + bounded runtime-contract stand-in")
-pending = "check not built yet in this session; will be claimed once its obligations and stand-in run green on the unchanged tree"
 add("C01", "other",
     "Deductive kernel (STFT): compute_chunk is proved to preserve a data invariant relating its buffer, counters and the ghost "
     "stream of all samples fed so far, and to hand _compute_frame exactly the documented frames, for every frame length, shift <= length, "
@@ -14,5 +13,12 @@ add("C01", "other",
     "followed by finalize equals compute_full by induction over chunks. The short-integration computer and value-level round-off are "
     "decided by a bounded stand-in (chunked vs whole runs of the real code). Mixed proof + bounded, hence 'other'.",
     "contract-based deductive verification (loop/data invariants with ghost stream -> VCs from the real AST -> z3) + bounded runtime-contract stand-in")
-for p in ["C03","C04","C05","C06","C07","C08","C09","C10","C11","C12","C13","C14","C15","C16","C17","C18","C19","C20"]:
+BOUNDED = ("At this commit the property is decided by its bounded runtime-contract stand-in only (executable contracts on the real functions "
+           "driven by enumerated / seeded inputs against an independent oracle; bounds in the evidence file); the deductive obligations for "
+           "its functions are being added. Bounded, not proof, hence 'other'.")
+TECH_B = "runtime contracts on the real functions (bounded stand-in of the contract-based deductive check; VCs in progress)"
+for p in ["C03", "C04", "C08", "C09", "C10", "C11", "C12", "C13", "C15", "C16", "C17"]:
+    add(p, "other", BOUNDED, TECH_B)
+pending = "stand-in still being built in this session; will be claimed once it runs green on the unchanged tree"
+for p in ["C05","C06","C07","C14","C18","C19","C20"]:
     NOT_APPLICABLE[p] = pending
